@@ -240,6 +240,27 @@ def run(tier, rep):
         rep.violation('C09|race|%s' % norm('|'.join(sorted(set(re.sub(r'\(.*', '', f) for f in fr)))[:120]), {'race_report': b[:3000]})
     rep.evaluations += free_rounds
     nontriv |= free_outcomes
+    # "Close may be called at any time": Close called again from inside a module's close callback, on the same goroutine (direct mode
+    # lifereenter; the verdict is structural - the closing goroutine waits inside Close for something an outer Close of its own holds)
+    rd = common.scratch_dir('vrun-reenter-')
+    try:
+        outp = os.path.join(rd, 'out.json')
+        try:
+            subprocess.run([binary, '-mode', 'lifereenter', '-out', outp], stdout=subprocess.DEVNULL, stderr=subprocess.DEVNULL, env=env, timeout=120, cwd=rd)
+            ro = json.load(open(outp))
+        except Exception as e:
+            ro = {'verdict': 'inconclusive', 'error': repr(e)}
+    finally:
+        shutil.rmtree(rd, ignore_errors=True)
+    rep.evaluations += 1
+    if ro.get('verdict') == 'deadlock':
+        rep.violation('C09|reentrant-close|deadlock: Close called from a module close callback never returns', {'mode': 'lifereenter', 'observation': ro})
+    elif ro.get('verdict') == 'returned':
+        nontriv.add(('reentrant-close', 'returned', ro.get('callbacks'), ro.get('done')))
+        if ro.get('callbacks') != 1:
+            rep.violation('C09|reentrant-close|close callbacks ran %s times' % ro.get('callbacks'), {'mode': 'lifereenter', 'observation': ro})
+    else:
+        rep.inconc('re-entrant Close probe: %s' % common.short(ro, 300))
     rep.nontrivial = nontriv
     rep.samples = samples or [{'scenarios': [s[0] for s in S]}]
     rep.rule = ('controlled scheduler at the H1 lifecycle yield points: stateless DFS over all interleavings per scenario (fine = every yield point incl. inside the lock; coarse = lock-external points; '
